@@ -435,11 +435,11 @@ def updateOffsetTable8 (g : Bytes) (w off len : Nat) (delta : Int) (offset : Nat
 def updateTfhd8 (g : Bytes) (off len : Nat) (delta : Int) (offset : Nat) : Except PyErr Bytes :=
   let data := pyRead g (off + 9) ((len : Int) - 9)
   -- cdata.uint_be(b"\x00" + data[:3]) needs 3 bytes
-  if (data.take 3).length < 3 then .error .struct_
+  if (data.take 3).length < 3 then .error .mutagen
   else if ofBE (data.take 3) % 2 = 1 then
     let raw := (data.drop 7).take 8
-    if raw.length < 8 then .error .struct_
-    else match packBE 8 (patchEntry offset delta (ofBE raw)) .struct_ with
+    if raw.length < 8 then .error .mutagen
+    else match packBE 8 (patchEntry offset delta (ofBE raw)) .mutagen with
       | .error e => .error e
       | .ok b => .ok (writeAt g (off + 16) b)
   else .ok g
@@ -524,11 +524,11 @@ def updateOffsetTable (g : Bytes) (hl w off len : Nat) (delta : Int) (offset : N
 /-- `__update_tfhd`: flags at `_dataoffset + 1`, base_data_offset at `_dataoffset + 8` -/
 def updateTfhd (g : Bytes) (hl off len : Nat) (delta : Int) (offset : Nat) : Except PyErr Bytes :=
   let data := pyRead g (off + hl + 1) ((len : Int) - hl - 1)
-  if (data.take 3).length < 3 then .error .struct_
+  if (data.take 3).length < 3 then .error .mutagen
   else if ofBE (data.take 3) % 2 = 1 then
     let raw := (data.drop 7).take 8
-    if raw.length < 8 then .error .struct_
-    else match packBE 8 (patchEntry offset delta (ofBE raw)) .struct_ with
+    if raw.length < 8 then .error .mutagen
+    else match packBE 8 (patchEntry offset delta (ofBE raw)) .mutagen with
       | .error e => .error e
       | .ok b => .ok (writeAt g (off + hl + 8) b)
   else .ok g
